@@ -494,7 +494,18 @@ func (m *Machine) ResolveBalances(ctx context.Context, store Store) error {
 
 	m.Balances = make(map[machine.AccountAddress]map[machine.Asset]*machine.MonetaryInt)
 
-	for address, resourceIndex := range m.UnresolvedResourceBalances {
+	// one lookup per balance() variable: UnresolvedResourceBalances is keyed by address only and
+	// keeps a single variable per account
+	for resourceIndex, res := range m.UnresolvedResources {
+		balanceVar, ok := res.(program.VariableAccountBalance)
+		if !ok || resourceIndex >= len(m.Resources) {
+			continue
+		}
+		account, ok := m.getResource(balanceVar.Account)
+		if !ok {
+			return errors.New("invalid program (resolve balances: invalid address of account)")
+		}
+		address := string((*account).(machine.AccountAddress))
 		monetary := m.Resources[resourceIndex].(machine.Monetary)
 		balance, err := store.GetBalance(ctx, address, string(monetary.Asset))
 		if err != nil {
